@@ -385,6 +385,27 @@ def generic_source_docs():
     return None
 
 
+def multi_name_statement_docs():
+    """a comment that follows a statement naming several entities (`procedure :: a, b, c`, `final :: a, b`, `module procedure a, b`) documents the name it follows - the last one -
+    once; the three kinds of statement agree"""
+    src = ("module m\n  implicit none\n  type :: t\n  contains\n    procedure :: pa, pb, pc\n      !! bounddoc\n    final :: fa, fb\n      !! finaldoc\n  end type t\n"
+           "  interface gen\n    module procedure ma, mb\n      !! modprocdoc\n  end interface gen\ncontains\n"
+           + "".join(f"  subroutine {n}(self)\n    {'type' if n[0] == 'f' else 'class'}(t) :: self\n  end subroutine {n}\n" for n in ("pa", "pb", "pc", "fa", "fb"))
+           + "  subroutine ma(x)\n    integer :: x\n  end subroutine ma\n  subroutine mb(x)\n    real :: x\n  end subroutine mb\nend module m\n")
+    try:
+        m = realrun.parse_source(src).modules[0]
+        t = m.types[0]
+        got = {"procedure ::": {b.name: [l.strip() for l in b.doc_list] for b in t.boundprocs},
+               "final ::": {f.name: [l.strip() for l in f.doc_list] for f in t.finalprocs},
+               "module procedure": {p.name: [l.strip() for l in p.doc_list] for p in m.interfaces[0].modprocs}}
+    except Exception as e:
+        got = f"{type(e).__name__}: {e}"
+    want = {"procedure ::": {"pa": [], "pb": [], "pc": ["bounddoc"]}, "final ::": {"fa": [], "fb": ["finaldoc"]}, "module procedure": {"ma": [], "mb": ["modprocdoc"]}}
+    if got != want:
+        return {"confirmed": True, "input": {"source": src}, "actual": got, "expected": want, "how": "real parser: doc_list of every name of three multi-name statements"}
+    return None
+
+
 def pageless_entity_docs():
     """an entity without a page of its own (a type local to a procedure, its components; shown with proc_internals) is documented by what its summary shows: the whole comment"""
     src = ("module m\ncontains\n  subroutine worker()\n    !! worker doc\n    type :: local_t\n      !! typeone typetwo\n      !!\n      !! typethree typefour\n      !!\n      !! - typefive\n"
